@@ -438,6 +438,34 @@ CMPI = ("eq", "ne", "slt", "sle", "sgt", "sge", "ult", "ule", "ugt", "uge")
 CMPF = ("false", "oeq", "ogt", "oge", "olt", "ole", "one", "ord", "ueq", "ugt", "uge", "ult", "ule", "une", "uno", "true")
 
 
+# constants around every shortcut of LowerArithConstant (12-bit immediates, s32 range of the li + fcvt.d.w path for
+# integer-valued f64, li normalisation of unsigned forms, bit-pattern path of f32, stack path of f64)
+INT_CONSTS = (0, 1, -1, 2047, 2048, -2048, -2049, 2 ** 31 - 1, -2 ** 31, 2 ** 31, 2 ** 32 - 1, -2 ** 31 + 1, 4096, -4096, 0x7FFFF800)
+F64_CONSTS = ("0.0", "-0.0", "0.5", "-0.5", "1.5", "1.0", "-1.0", "3.0", "0.1", "2047.0", "2048.0", "-2048.0", "-2049.0",
+              "2147483647.0", "2147483648.0", "2147483649.0", "2147483647.5", "-2147483648.0", "-2147483649.0", "-2147483647.0",
+              "-2147483648.5", "4294967295.0", "4294967296.0", "4503599627370497.0", "1.0e+300", "-1.0e+300", "4.9e-324",
+              "0x7FF0000000000000", "0xFFF0000000000000", "0x7FF8000000000000")
+F32_CONSTS = ("0.0", "-0.0", "0.5", "-0.5", "1.5", "1.0", "-1.0", "3.0", "0.1", "2047.0", "2048.0", "-2048.0", "-2049.0",
+              "2147483520.0", "2147483648.0", "2147483904.0", "-2147483648.0", "-2147483904.0", "-2147483520.0",
+              "4294967040.0", "4294967296.0", "16777216.0", "16777218.0", "3.0e+38", "-3.0e+38", "1.0e-45",
+              "0x7F800000", "0xFF800000", "0x7FC00000")
+
+
+def int_class(c: int) -> str:
+    return "imm12" if -2048 <= c <= 2047 else "s32" if -2 ** 31 <= c < 2 ** 31 else "unsigned-form"
+
+
+def float_class(c: str, t: str) -> str:
+    if c.startswith("0x"):
+        return "inf/nan"
+    v = float(c)
+    if c.startswith("-") and v == 0.0:
+        return "negative-zero"
+    if v != int(v) if abs(v) < 2 ** 63 else False:
+        return "non-integral"
+    return "integral-in-s32" if -2 ** 31 <= v < 2 ** 31 else "integral-outside-s32"
+
+
 def fvals(t: str):
     return F32_VALUES if t == "f32" else F64_VALUES
 
@@ -515,6 +543,39 @@ def fixed_programs(quick: bool) -> list[dict]:
         for p in CMPF:
             text, ref = wrapped_cmp("cmpf", p, t)
             add(f"cmpf:{p}:{t}", f"arith.cmpf {p} {t}", text, [fvals(t), fvals(t)], ref)
+    # ---- constants: every shortcut of LowerArithConstant with its boundary values on both sides
+    for t, consts in (("i32", INT_CONSTS), ("index", INT_CONSTS)):
+        for c in consts:
+            add(f"const:{t}:{c}", f"arith.constant {t} {int_class(c)}", f"""builtin.module {{
+  func.func @f() -> i32 {{
+    %c = arith.constant {c} : {t}
+{"    %r = arith.index_cast %c : index to i32" if t == "index" else ""}
+    func.return {"%r" if t == "index" else "%c"} : i32
+  }}
+}}""", [])
+    for t, consts in (("f32", F32_CONSTS), ("f64", F64_CONSTS)):
+        for c in consts:
+            cls = float_class(c, t)
+            add(f"const:{t}:{c}", f"arith.constant {t} {cls}", f"""builtin.module {{
+  func.func @f() -> {t} {{
+    %c = arith.constant {c} : {t}
+    func.return %c : {t}
+  }}
+}}""", [])
+            add(f"const+addf:{t}:{c}", f"arith.constant {t} {cls}", f"""builtin.module {{
+  func.func @f(%a: {t}) -> {t} {{
+    %c = arith.constant {c} : {t}
+    %r = arith.addf %a, %c : {t}
+    func.return %r : {t}
+  }}
+}}""", [list(fvals(t))[:12]])
+            add(f"const+mulf:{t}:{c}", f"arith.constant {t} {cls}", f"""builtin.module {{
+  func.func @f(%a: {t}) -> {t} {{
+    %c = arith.constant {c} : {t}
+    %r = arith.mulf %c, %a : {t}
+    func.return %r : {t}
+  }}
+}}""", [list(fvals(t))[:12]])
     # ---- floats
     for t in ("f32", "f64"):
         fv = fvals(t)
